@@ -561,6 +561,13 @@ func (ws *weights) pick(r *rand.Rand) string {
 	return ws.kinds[0]
 }
 
+// opRemoveWithMajorityDead: the operator API RemoveNamespaceFromNode is also issued while more than
+// half of the partition's replicas are absent from the presented node list. On the unchanged tree the
+// API then marks the removal (removeNamespaceFromNode has no liveness guard of its own; only
+// handleNamespaceMigrate has one), which the monitor reports as
+// removal-marked-with-majority-unreachable/op_remove (see known_findings.json).
+const opRemoveWithMajorityDead = true
+
 var syncWeights = mkWeights(map[string]int{
 	"check": 30, "world": 26, "scan": 3, "crash": 6, "ttl": 5, "restart": 7, "new_node": 2, "flip": 5,
 	"migrate": 5, "finish": 3, "add": 2, "remove": 3, "save": 2, "delist": 1, "reg_fail": 1, "mark_node": 1,
@@ -619,10 +626,17 @@ func (in *instance) genEvent(r *rand.Rand, ws *weights) Event {
 	case "op_remove":
 		ev.Node = 1 + r.Intn(nNodes)
 		in.mu.Lock()
-		if ri, ok := in.reg.currentReplicaLocked(in.p.NS, ev.Pid); ok && len(ri.RaftNodes) > 0 && r.Intn(8) != 0 {
-			ev.Node = int(cluster.ExtractRegIDFromGenID(ri.RaftNodes[r.Intn(len(ri.RaftNodes))]))
+		majorityDead := false
+		if ri, ok := in.reg.currentReplicaLocked(in.p.NS, ev.Pid); ok && len(ri.RaftNodes) > 0 {
+			if r.Intn(8) != 0 {
+				ev.Node = int(cluster.ExtractRegIDFromGenID(ri.RaftNodes[r.Intn(len(ri.RaftNodes))]))
+			}
+			majorityDead = in.w.deadCountLocked(ri.RaftNodes)*2 > len(ri.RaftNodes)
 		}
 		in.mu.Unlock()
+		if !opRemoveWithMajorityDead && majorityDead {
+			return in.genFallback(r)
+		}
 		if x := r.Intn(20); x == 0 {
 			ev.Arg = 1
 		} else if x == 1 {
